@@ -148,6 +148,22 @@ func c05Notes(what string, o *resyncObs, filter int) error {
 			if b := o.before[n.Path]; nk == h.KDir && (b == nil || b.Ino != a.Ino) && n.Stat.ModTime != a.Mtime {
 				return fmt.Errorf("%s: notification says the new directory %q has mtime %d, the destination's directory has %d", what, n.Path, n.Stat.ModTime, a.Mtime)
 			}
+			// permission and set-id/sticky bits (a symlink has none of its own)
+			if nk != h.KSymlink && nk != h.KSocket {
+				want := uint32(m.Perm())
+				if m&os.ModeSetuid != 0 {
+					want |= 0o4000
+				}
+				if m&os.ModeSetgid != 0 {
+					want |= 0o2000
+				}
+				if m&os.ModeSticky != 0 {
+					want |= 0o1000
+				}
+				if a.Perm != want {
+					return fmt.Errorf("%s: notification says %q has mode %04o, the destination's entry has %04o", what, n.Path, want, a.Perm)
+				}
+			}
 			// without an owner-rewriting filter the owner is the announced one, too
 			if filter == 0 && nk != h.KSocket && (n.Stat.Uid != a.Uid || n.Stat.Gid != a.Gid) {
 				return fmt.Errorf("%s: notification says %q belongs to %d:%d, the destination's entry to %d:%d", what, n.Path, n.Stat.Uid, n.Stat.Gid, a.Uid, a.Gid)
